@@ -92,7 +92,7 @@ def main():
             "guard": "TFEL_VERIF",
             "enable": "checks C29, C30 and C52 compile the anchored sources of /repo with -DTFEL_VERIF (add-only annotation TFEL_VERIF_SHARED_ACCESS feeding the simulator's happens-before race check); every other seam is symbol interposition (pthread_*, sem_*), link-time --wrap of process syscalls, LD_PRELOAD on real binaries, template/functor parameters and /verif-owned .mfront behaviours",
             "baseline_off_cmd": "bin/baseline-off",
-            "source_commits": ["7681c8188"],
+            "source_commits": ["9a9bee90a"],
             "add_only": True,
         },
         "engines": [
